@@ -350,13 +350,21 @@ func StartChild(dir string, env []string, extra ...string) (*Child, string) {
 		return nil, err.Error()
 	}
 	c := &Child{cmd: cmd, in: in, out: bufio.NewReaderSize(out, 1<<24), dir: dir}
-	ln, ok := c.readLine(30 * time.Second)
-	if !ok || !strings.HasPrefix(ln, "READY") {
-		c.Kill()
-		return nil, "child did not start: " + ln + fmt.Sprintf(" (exit %d)", c.exit)
+	// the server prints a few informational lines on stdout while starting; skip to READY / STARTFAIL
+	var seen []string
+	for i := 0; i < 50; i++ {
+		ln, ok := c.readLine(30 * time.Second)
+		if ok && strings.HasPrefix(ln, "READY") {
+			c.Ready = ln
+			return c, ""
+		}
+		seen = append(seen, ln)
+		if !ok || strings.HasPrefix(ln, "STARTFAIL") {
+			break
+		}
 	}
-	c.Ready = ln
-	return c, ""
+	c.Kill()
+	return nil, "child did not start: " + strings.Join(seen, " / ") + fmt.Sprintf(" (exit %d)", c.exit)
 }
 
 func (c *Child) readLine(timeout time.Duration) (string, bool) {
